@@ -1247,3 +1247,33 @@ func resolveVarAddr(c *Ctx, addr ssa.Value, fn *ssa.Function) ssa.Value {
 	}
 	return cell
 }
+
+// eqConstOf: v is `x == K` or `x != K` with an integer constant on either side; isEq tells which.
+func eqConstOf(v ssa.Value) (x ssa.Value, k int64, isEq bool, ok bool) {
+	b, isB := v.(*ssa.BinOp)
+	if !isB || (b.Op != token.EQL && b.Op != token.NEQ) {
+		return nil, 0, false, false
+	}
+	if n, isC := constInt(b.Y); isC {
+		return b.X, n, b.Op == token.EQL, true
+	}
+	if n, isC := constInt(b.X); isC {
+		return b.Y, n, b.Op == token.EQL, true
+	}
+	return nil, 0, false, false
+}
+
+// nilCmpOf: v is `x == nil` / `x != nil` with nil on either side; isEq tells which.
+func nilCmpOf(v ssa.Value) (x ssa.Value, isEq bool, ok bool) {
+	b, isB := v.(*ssa.BinOp)
+	if !isB || (b.Op != token.EQL && b.Op != token.NEQ) {
+		return nil, false, false
+	}
+	if isNilConst(b.Y) {
+		return b.X, b.Op == token.EQL, true
+	}
+	if isNilConst(b.X) {
+		return b.Y, b.Op == token.EQL, true
+	}
+	return nil, false, false
+}
